@@ -161,7 +161,7 @@ BAD_METADATA = [
     ("md_job_script_missing_dep", {"metadata_type": "add_job_script", "name": "b", "script": ["x"], "depends_on": ["nope"]}),
     ("md_cpp_function_no_code", {"metadata_type": "add_cpp_function", "name": "f", "include_files": [], "arguments": ["a"], "return_type": "double"}),
     ("md_enum_no_values", {"metadata_type": "define_enum", "namespace": "N", "name": "E"}),
-    ("md_collection_extra_key", None), ("md_collection_key_of_other_backend", None), ("md_collection_missing_key", None), ("md_collection_element_inconsistent", None), ("md_collection_other_backend", None),
+    ("md_collection_extra_key", None), ("md_collection_key_of_other_backend", None), ("md_collection_missing_key", None), ("md_collection_element_inconsistent", None), ("md_collection_other_backend", None), ("md_collection_sibling_cms_backend", None),
 ]
 
 
@@ -190,6 +190,10 @@ def metadata_cases(backend: str, s) -> List[Tuple[str, str]]:
                 md = {k: v for k, v in base.items() if k != "container_type"}
             elif name == "md_collection_element_inconsistent":
                 md = {k: v for k, v in base.items() if k != "element_type"}
+            elif name == "md_collection_sibling_cms_backend":
+                if backend == "atlas":
+                    continue
+                md = collection_md("cms_miniaod" if backend == "cms_aod" else "cms_aod")
             else:
                 other = "cms_aod" if backend == "atlas" else "atlas"
                 md = collection_md(other)
@@ -207,6 +211,11 @@ def metadata_cases(backend: str, s) -> List[Tuple[str, str]]:
     fn = dict(io, name="PlainFn")
     fn.pop("instance_object")
     out.append(("function_called_as_method", f"Select(SelectMany(MetaData(ds, {fn!r}), lambda e: e.{c}('A')), lambda j: j.PlainFn(2.0))"))
+    # two inject_code blocks of one name that differ in line ORDER / in how often a line is repeated are different blocks
+    if backend == "atlas":
+        ic = lambda lines: {"metadata_type": "inject_code", "name": "blk", "ctor_lines": lines, "body_includes": ["a.h"]}  # noqa: E731
+        out.append(("md_inject_same_name_reordered", f"Select(MetaData(MetaData(ds, {ic(['x = 1;', 'x = x * 2;'])!r}), {ic(['x = x * 2;', 'x = 1;'])!r}), lambda e: e.{c}('A').Count())"))
+        out.append(("md_inject_same_name_repeated_line", f"Select(MetaData(MetaData(ds, {ic(['n += 1;'])!r}), {ic(['n += 1;', 'n += 1;'])!r}), lambda e: e.{c}('A').Count())"))
     # metadata deep in the chain / after other valid metadata
     out.append(("md_unknown_after_valid", f"Select(MetaData(MetaData(ds, {{'metadata_type': 'inject_code', 'name': 'ok', 'body_includes': ['a.h']}}), {{'metadata_type': 'bogus'}}), lambda e: e.{c}('A').Count())"))
     out.append(("md_unknown_on_outer", f"MetaData(Select(ds, lambda e: e.{c}('A').Count()), {{'metadata_type': 'bogus'}})"))
